@@ -2,9 +2,11 @@ package main
 
 import (
 	"fmt"
+	"os"
 	"sort"
 	"strings"
 	"sync"
+	"time"
 )
 
 // ---------------------------------------------------------------------------------------------
@@ -658,6 +660,73 @@ func (c *Ctx) tkRunConfiguredOptions(kind string, cfg tkStage, masks []int, v *t
 	}
 }
 
+// tkRunLongLine: "every input": a single line of more than 2^16 characters (a run of blanks, of word characters,
+// of digits, then a short token): every token still sits at the forward-scan column of its first character
+// and the end-of-input token one column past the last character. The inputs are described, not printed.
+func (c *Ctx) tkRunLongLine(kind string, v *tkVerdict) {
+	const n = 65540
+	for li, lm := range []struct{ unit, what, tail string }{{" ", "blanks", "x"}, {"a", "letters 'a'", " b 1"}, {"ab, ", "times \"ab, \"", "'q'"}} {
+		if c.Tier != "thorough" && li != 0 {
+			continue
+		}
+		h := c.newTkHarness(kind)
+		if h.fault != "" {
+			v.note("position", "", h.fault)
+			return
+		}
+		h.m.maxSteps = 400000000
+		if why := h.setOptions(0); why != "" {
+			v.note("position", "", why)
+			return
+		}
+		reps := n / len(lm.unit)
+		s := strings.Repeat(lm.unit, reps) + lm.tail
+		show := fmt.Sprintf("%s tokenizer on one line made of %d %s followed by %q", kind, reps, lm.what, lm.tail)
+		noteSample("TOK.position/"+kind, show)
+		t0 := time.Now()
+		r := h.tokenize(s)
+		if os.Getenv("MACHDEBUG") != "" {
+			fmt.Fprintf(os.Stderr, "%s: %d steps, %v\n", show, h.m.steps, time.Since(t0))
+		}
+		switch r.kind {
+		case "opaque":
+			v.note("position", tkBudget(h, show, r.why, h.maxOK), show+": "+r.why)
+			continue
+		case "panic":
+			v.note("position", show+" panics: "+r.why, "")
+			continue
+		}
+		lines, cols := refPositions(s)
+		off, bad := 0, ""
+		short := func(t string) string {
+			if rs := []rune(t); len(rs) > 24 {
+				return fmt.Sprintf("%q… (%d characters)", string(rs[:12]), len(rs))
+			}
+			return fmt.Sprintf("%q", t)
+		}
+		for i, t := range r.toks {
+			if off >= len(lines) {
+				bad = fmt.Sprintf("%s: the token values are longer than the input", show)
+				break
+			}
+			if !strings.HasPrefix(s[off:], t.val) {
+				// (one-byte characters only: offsets in bytes and in characters agree)
+				bad = fmt.Sprintf("%s: token %d %s(%s) is not the text at offset %d of the input: a character is dropped, invented or replaced", show, i, t.typ, short(t.val), off)
+				break
+			}
+			if t.line != lines[off] || t.col != cols[off] {
+				bad = fmt.Sprintf("%s: token %d %s(%s) reports %d:%d, its first character is at %d:%d in a forward scan [last functions entered: %s]", show, i, t.typ, short(t.val), t.line, t.col, lines[off], cols[off], h.lastPath)
+				break
+			}
+			off += len(t.val)
+		}
+		if bad == "" && (off != len(s) || len(r.toks) == 0 || r.toks[len(r.toks)-1].typ != "Eof") {
+			bad = fmt.Sprintf("%s: the %d tokens cover %d of the %d characters or do not end with the end-of-input token", show, len(r.toks), off, len(s))
+		}
+		v.note("position", bad, "")
+	}
+}
+
 var tkMemo = map[string]*tkVerdict{}
 var tkMu sync.Mutex
 
@@ -978,6 +1047,12 @@ func (c *Ctx) tkRun(kind, part string) *tkVerdict {
 			total.merge(p)
 		}
 	}
+	// one very long line: columns far beyond any narrow counter. Each member takes two to five seconds when it
+	// runs alone (much longer beside the other workers): the quick tier runs one member on the expression
+	// tokenizer, whose positions the syntax errors quote; the thorough tier three members on every tokenizer.
+	if part == "base" && (c.Tier == "thorough" || kind == "expression") {
+		c.tkRunLongLine(kind, total)
+	}
 	tkMemo[key] = total
 	return total
 }
@@ -1101,8 +1176,8 @@ func init() {
 
 func tkEmit(c *Ctx, rule, check, okText string) []*Obligation {
 	o := newObl(rule)
+	part := map[string]string{"lossless": "base", "position": "base", "options": "options", "reuse": "reuse"}[check]
 	for _, kind := range tkKinds {
-		part := map[string]string{"lossless": "base", "position": "base", "options": "options", "reuse": "reuse"}[check]
 		v := c.tkRun(kind, part)
 		spec := tokenizerCtors[kind]
 		pos := c.Pos(c.MustFunc(spec[0], "", spec[1]).Pos())
